@@ -115,9 +115,20 @@ Section McRun.
   (* run_from_states_with_change.  ord = the iteration order of the HashSet of start states (any permutation);
      tr_cmp = the order of the Debug rendering of traces, used to break depth ties (fix F2). *)
   Variable tr_cmp : list logentry -> list logentry -> comparison.
+  (* PendingEvents::ids(): the keys of the BTreeMap of pending events, increasing (fix F16: remaining ties - two
+     states with the same depth and trace that differ in which of two same-named timer events was fired - are
+     broken by the ids of the pending events) *)
+  Fixpoint ninsert (x : N) (l : list N) : list N :=
+    match l with
+    | [] => [x]
+    | y :: r => if N.leb x y then x :: l else y :: ninsert x r
+    end.
+  Definition nsort (l : list N) : list N := fold_right ninsert [] l.
+  Definition pending_ids (st : mcstate) : list N := nsort (map fst (so_live so (st_events st))).
+  Definition start_key (st : mcstate) : list logentry * list N := (st_trace st, pending_ids st).
   Definition start_cmp (a b : mcstate) : comparison :=
     match N.compare (st_depth a) (st_depth b) with
-    | Eq => tr_cmp (st_trace a) (st_trace b)
+    | Eq => cmp_pair tr_cmp (cmp_list N.compare) (start_key a) (start_key b)
     | c => c
     end.
   (* stable insertion sort: later elements go after equal earlier ones *)
